@@ -84,6 +84,25 @@ Definition bgp_decide (me : N) (v : bview) : breason :=
   else if negb (has_healthy (fun _ => false) (bv_eps v)) then RNoEndpoints
   else RAnnounce.
 
+(* ShouldAnnounce reports ONE reason; when several conditions fail, which one is reported is a free choice of the
+   implementation (the order of its tests).  [reason_applies me v r]: the condition behind reason r holds (for
+   RAnnounce: all of them pass).  bgp_decide above reports the first applicable reason in the code's current order;
+   the correspondence accepts any applicable one (checked nondeterminism). *)
+Definition reason_applies (me : N) (v : bview) (r : breason) : bool :=
+  let sel := existsb (mem me) (bv_advs v) in
+  let unav := match bv_node v with Some (u, _) => u | None => false end in
+  let excl := negb (bv_ignore v) && match bv_node v with Some (_, x) => x | None => false end in
+  let noloc := bv_local v && negb (has_healthy (not_me me) (bv_eps v)) in
+  let noeps := negb (has_healthy (fun _ => false) (bv_eps v)) in
+  match r with
+  | RNotOwner => negb sel
+  | RNetUnavail => unav
+  | RExcluded => excl
+  | RNoLocal => noloc
+  | RNoEndpoints => noeps
+  | RAnnounce => sel && negb unav && negb excl && negb noloc && negb noeps
+  end.
+
 (* ---- the statement's vocabulary, written independently of has_healthy ---- *)
 Definition entries (v : bview) : list bep := concat (bv_eps v).
 Definition carries (e : bep) (a : N) : Prop := In a (be_addrs e).
